@@ -111,7 +111,7 @@ impl Property for C16 {
 
     fn generate(&self, t: &mut Tape, ctx: &Ctx) -> Case {
         if t.chance(1, 6) {
-            return Case { ty: "MIXED".into(), a: t.pick(&INT_POOL).to_string(), b: t.pick(&REAL_POOL).to_string(), c: String::new() };
+            return Case { ty: "MIXED".into(), a: t.pick(&INT_POOL).to_string(), b: t.pick(&REAL_POOL).to_string(), c: t.pick(&INT_POOL).to_string() };
         }
         let ty = *t.pick(&TYPES);
         let p = pool(ty);
@@ -134,7 +134,7 @@ impl Property for C16 {
             let k = pool(ty).len() as u64;
             n += if tier == Tier::Quick { k * k } else { k * k * k };
         }
-        n + (INT_POOL.len() * REAL_POOL.len()) as u64
+        n + (INT_POOL.len() * REAL_POOL.len() * INT_POOL.len()) as u64
     }
 
     fn enum_case(&self, index: u64, tier: Tier, _ctx: &Ctx) -> Option<Case> {
@@ -152,7 +152,8 @@ impl Property for C16 {
             rest -= size;
         }
         let k = INT_POOL.len() as u64;
-        Some(Case { ty: "MIXED".into(), a: INT_POOL[(rest % k) as usize].to_string(), b: REAL_POOL[(rest / k) as usize].to_string(), c: String::new() })
+        let r = REAL_POOL.len() as u64;
+        Some(Case { ty: "MIXED".into(), a: INT_POOL[(rest % k) as usize].to_string(), b: REAL_POOL[((rest / k) % r) as usize].to_string(), c: INT_POOL[((rest / (k * r)) % k) as usize].to_string() })
     }
 
     fn enum_description(&self) -> Option<String> {
@@ -180,9 +181,11 @@ impl Property for C16 {
 
         if case.ty == "MIXED" {
             obs.label("int-x-real");
-            let defs = "CREATE TABLE t(line = '^i=([^;]*);r=([^;]*);', line[1] => i INT, line[2] => r REAL);";
-            let q = "SELECT (i < r) AS lt, (i = r) AS eq, (i > r) AS gt, (r < i) AS rlt, (r = i) AS req, (r > i) AS rgt, (i <= r) AS le, (i >= r) AS ge, (i != r) AS ne FROM t";
-            let out = one(defs, q, &[format!("i={};r={};", case.a, case.b)])?;
+            let defs = "CREATE TABLE t(line = '^i=([^;]*);r=([^;]*);k=([^;]*);', line[1] => i INT, line[2] => r REAL, line[3] => k INT);";
+            let q = "SELECT (i < r) AS lt, (i = r) AS eq, (i > r) AS gt, (r < i) AS rlt, (r = i) AS req, (r > i) AS rgt, (i <= r) AS le, (i >= r) AS ge, (i != r) AS ne, \
+                     (r = k) AS eq_rk, (i = k) AS eq_ik, (r <= k) AS le_rk, (i <= k) AS le_ik, (r < k) AS lt_rk, (i < k) AS lt_ik FROM t";
+            let third = if case.c.is_empty() { case.a.clone() } else { case.c.clone() };
+            let out = one(defs, q, &[format!("i={};r={};k={};", case.a, case.b, third)])?;
             let f = first_obj(&out, q)?;
             let g = |k: &str| bool_of(&f, k).map_err(|e| Failure::new("undecodable-output", e));
             let (lt, eq, gt) = (g("lt")?, g("eq")?, g("gt")?);
@@ -197,6 +200,17 @@ impl Property for C16 {
             }
             if g("le")? != (lt || eq) || g("ge")? != (gt || eq) || g("ne")? == eq {
                 return Err(Failure::new("mixed: derived-operators", ctxt));
+            }
+            // transitivity through the REAL in the middle: i ? r ? k
+            let tctx = format!("INT {} , REAL {} , INT {}: i=r {} r=k {} i=k {} | i<=r {} r<=k {} i<=k {} | i<r {} r<k {} i<k {}", case.a, case.b, third, eq, g("eq_rk")?, g("eq_ik")?, g("le")?, g("le_rk")?, g("le_ik")?, lt, g("lt_rk")?, g("lt_ik")?);
+            if eq && g("eq_rk")? && !g("eq_ik")? {
+                return Err(Failure::new("mixed: transitivity-eq", tctx));
+            }
+            if g("le")? && g("le_rk")? && !g("le_ik")? {
+                return Err(Failure::new("mixed: transitivity-le", tctx));
+            }
+            if lt && g("lt_rk")? && !g("lt_ik")? {
+                return Err(Failure::new("mixed: transitivity-lt", tctx));
             }
             let i: i64 = case.a.parse().unwrap_or(0);
             let r: f64 = case.b.parse().unwrap_or(0.0);
